@@ -675,7 +675,7 @@ pub fn c05(run: &mut Run) {
     run.require_label("c05_model", "blend_after_pause_discarded", 0.05);
     run.require_label("c05_model", "pause", 0.2);
     // exhaustive enumeration of all histories up to a depth over a 9-letter alphabet
-    let depth: u32 = if run.tier == mv_engine::Tier::Quick { 5 } else { 7 };
+    let depth: u32 = if run.tier == mv_engine::Tier::Quick { 6 } else { 8 };
     let alphabet: Vec<AOp> = vec![
         AOp::Adv(Step::Zero), AOp::Adv(Step::Grid(128)), AOp::Adv(Step::Grid(512)), AOp::Adv(Step::Grid(1536)),
         AOp::Set(0), AOp::Set(1), AOp::Set(2), AOp::Set(3), AOp::Set(4),
